@@ -293,45 +293,14 @@ repaired model the program is assembled with the 16-bit form (`pcrHint = 4`, `si
 the former counterexample is gone and the refutation was deleted.  Every `maxSize` the model produces is
 now `≥ size`.  `C03_Statement` is still false, because of the ORG witness below (which was already here). -/
 
-/-- a branch over an ORG: the displacement is computed from sizes, not from addresses -/
+/-- a branch over an ORG -/
 def C03_orgWitness : List Str := ["START BRA END\n", " ORG $100\n", "END NOP\n"].map String.toList
 
-private def orgCheck (a : Assembly) : Bool :=
-  match a.stmts[0]?, a.stmts[2]? with
-  | some s, some t =>
-    s.row.isShortBranch && s.pkg.size == 2 && addrNat s == some 0 && addrNat t == some 256 &&
-    (match s.pkg.additional with | .numeric 0 _ _ _ => true | _ => false) &&
-    (match s.operand.value with | .address 2 _ => true | _ => false) && s.operand.kind == .relative
-  | _, _ => false
-
-/-- the hypothesis "no ORG between branch and target" of `C03_branch` cannot be dropped: here the stored
-byte is 0 while the target is 254 bytes beyond the next instruction -/
-theorem C03_branch_org_counterexample :
-    ∃ a, assemble [] C03_orgWitness = .ok a ∧ orgCheck a = true :=
-  checkProgram_sound (by decide +kernel) []
-
-/-- `C03_Statement` does not hold: its branch clause carries no "no ORG in between" hypothesis, and the
-ORG witness above violates it (stored byte 0, needed displacement 254, which no sign-extended byte gives).
-(Before fix aafdc4b this was derived from the PCR range counterexample, which no longer exists.) -/
-theorem C03_Statement_false : ¬ C03_Statement := by
-  intro hC
-  obtain ⟨a, ha, hchk⟩ := C03_branch_org_counterexample
-  unfold orgCheck at hchk
-  split at hchk
-  · rename_i s t hs ht
-    simp only [Bool.and_eq_true, beq_iff_eq] at hchk
-    obtain ⟨⟨⟨⟨⟨⟨h1, h2⟩, h3⟩, h4⟩, h5⟩, h6⟩, h7⟩ := hchk
-    split at h6
-    · rename_i m hval
-      obtain ⟨x, y, hx, hy, hshort, _⟩ := (hC [] _ a ha).1 0 2 m s t hs h7 hval ht
-      rw [h3] at hx; cases hx
-      rw [h4] at hy; cases hy
-      obtain ⟨d8, hd8, _, hy⟩ := hshort h1
-      rw [h2] at hy
-      unfold sext at hy
-      split at hy <;> omega
-    · cases h6
-  · cases hchk
+/-- REPAIRED (finding B1, formerly `C03_branch_org_counterexample` / `C03_Statement_false`): a branch over an ORG used to
+be accepted with a displacement computed from sizes (stored byte 0, needed 254); since fix f9c374f an ORG after the
+first label or byte is a diagnostic, so no accepted program has an ORG between a branch and its target. -/
+theorem C03_branch_org_counterexample_fixed (fs : Files) : assemble fs C03_orgWitness = .diag :=
+  diagProgram_sound (by decide +kernel) fs
 
 /-! ### summary -/
 
